@@ -410,18 +410,24 @@ def _validate(ctx, jobs, traces):
     text, wire, order = split_traces(traces)
     for tr in text[:1] + text[len(text) // 2:len(text) // 2 + 1] + wire[2000:2001] + wire[-1:] + order[-1:]:
         ctx.sample(tr)
+    # drift (exact escaping, exact compression choice: deterministic parts of the model) is judged by
+    # the strict configurations in a side thread while the hard clauses are validated
+    def strict_runs():
+        return (ctx.validate("Trace_NameText", "Trace_NameText_strict.cfg", [tr for tr in text if tr["ev"][0]["op"] == "write"]),
+                ctx.validate("Trace_NameWire", "Trace_NameWire_strict.cfg", [tr for tr in wire if tr.get("kind") == "write"]))
+    side = cf.ThreadPoolExecutor(max_workers=1)
+    fut = side.submit(strict_runs)
     rejects = []
-    rejects += ctx.validate("Trace_NameText", "Trace_NameText.cfg", text)
-    rejects += ctx.validate("Trace_NameWire", "Trace_NameWire.cfg", wire)
-    rejects += ctx.validate("Trace_DnsName", "Trace_DnsName.cfg", order)
-    # drift: exact escaping, exact compression choice (deterministic parts of the model)
+    try:
+        rejects += ctx.validate("Trace_NameText", "Trace_NameText.cfg", text)
+        rejects += ctx.validate("Trace_NameWire", "Trace_NameWire.cfg", wire)
+        rejects += ctx.validate("Trace_DnsName", "Trace_DnsName.cfg", order)
+    finally:
+        d1, d2 = fut.result()
     bad = {tr["tid"] for tr, _, _ in rejects}
-    n0 = ctx.traces
-    d1 = ctx.validate("Trace_NameText", "Trace_NameText_strict.cfg",
-                      [tr for tr in text if tr["ev"][0]["op"] == "write" and tr["tid"] not in bad])
-    d2 = ctx.validate("Trace_NameWire", "Trace_NameWire_strict.cfg",
-                      [tr for tr in wire if tr.get("kind") == "write" and tr["tid"] not in bad])
-    ctx.traces = n0
+    d1 = [r for r in d1 if r[0]["tid"] not in bad]          # a trace that fails a hard clause is not drift
+    d2 = [r for r in d2 if r[0]["tid"] not in bad]
+    ctx.traces = len(text) + len(wire) + len(order)
     ctx.drift = len(d1) + len(d2)
     ctx.extra["drift_detail"] = {"text_not_exact": len(d1), "compression_not_exact": len(d2)}
     for tr, line, clause in rejects:
